@@ -149,4 +149,130 @@ theorem expandBatchOkRev_iff_torch : ∀ (o : List Nat) (t : List Int),
             · right; exact h
           · intro h; simp at h
 
+open Impl in
+/-- torch `expand` validity = "broadcasting the source into the target leaves the target unchanged". -/
+theorem expandOkRev_iff_bcast : ∀ (s t : List Nat), expandOkRev s t = true ↔ bcastRev t s = some t
+  | [], t => by simp [expandOkRev, bcastRev_nil_right]
+  | x :: s, [] => by simp [expandOkRev, bcastRev]
+  | x :: s, y :: t => by
+    have ih := expandOkRev_iff_bcast s t
+    simp only [expandOkRev, Bool.and_eq_true, Bool.or_eq_true, decide_eq_true_eq, bcastRev]
+    by_cases hc : y = x ∨ y = 1 ∨ x = 1
+    · simp only [hc, if_true]
+      cases hb : bcastRev t s with
+      | none =>
+        simp only [hb] at ih
+        simp [ih]
+      | some r =>
+        simp only [hb] at ih
+        simp only [Option.map_some, Option.some.injEq, List.cons.injEq]
+        constructor
+        · intro ⟨h1, h2⟩
+          have hr : r = t := by simpa using ih.mp h2
+          refine ⟨?_, hr⟩
+          by_cases hy : y = 1
+          · simp only [hy, if_true]; rcases h1 with h | h <;> omega
+          · simp [hy]
+        · intro ⟨h1, h2⟩
+          refine ⟨?_, ih.mpr (by simp [h2])⟩
+          by_cases hy : y = 1
+          · simp only [hy, if_true] at h1; left; omega
+          · rcases hc with h | h | h
+            · left; omega
+            · exact absurd h hy
+            · right; exact h
+    · simp only [hc, if_false]
+      constructor
+      · intro ⟨h1, _⟩; exfalso; apply hc; rcases h1 with h | h
+        · left; omega
+        · right; right; exact h
+      · intro h; cases h
+
+theorem expandOk_iff_broadcast (s t : List Nat) : expandOk s t = true ↔ broadcastShapes? t s = some t := by
+  simp only [expandOk, broadcastShapes?, expandOkRev_iff_bcast]
+  constructor
+  · intro h; simp [h]
+  · intro h
+    cases hb : bcastRev t.reverse s.reverse with
+    | none => simp [hb] at h
+    | some r =>
+      simp only [hb, Option.map_some, Option.some.injEq] at h
+      have : r = t.reverse := by rw [← h]; simp
+      rw [this]
+theorem shape_cases1 (d : List Nat) : d = [] ∨ ∃ D k, d = D ++ [k] := by
+  rcases shape_cases d with rfl | ⟨p, rfl⟩ | ⟨B, k, p, rfl⟩
+  · left; rfl
+  · right; exact ⟨[], p, rfl⟩
+  · right; exact ⟨B ++ [k], p, by simp⟩
+
+open Impl in
+theorem expandOk_append_one (D A : List Nat) (k x : Nat) :
+    expandOk (D ++ [k]) (A ++ [x]) = ((decide (k = x) || decide (k = 1)) && expandOk D A) := by
+  simp [expandOk, expandOkRev]
+
+
+theorem eq_of_dimAt (s b : List Nat) (hl : s.length = b.length) (h : ∀ i, i < s.length → dimAt s i = dimAt b i) : s = b := by
+  apply List.ext_getElem hl
+  intro i h1 h2
+  have := h i h1
+  simpa [dimAt, List.getD_eq_getElem?_getD, h1, h2] using this
+
+theorem bcastRev_rel : ∀ (a b s : List Nat), bcastRev a b = some s ↔ BroadcastRel a b s
+  | [], b, s => by
+    rw [bcastRev_nil_left]
+    constructor
+    · intro h; cases h
+      refine ⟨by simp, fun i hi => ?_⟩
+      simp [dimAt]
+    · intro ⟨hl, h⟩
+      have : s = b := eq_of_dimAt s b (by simpa using hl) (fun i hi => by have := (h i hi).2; simpa [dimAt] using this)
+      rw [this]
+  | x :: a, [], s => by
+    rw [bcastRev_nil_right]
+    constructor
+    · intro h; cases h
+      refine ⟨by simp, fun i hi => ?_⟩
+      by_cases hx : dimAt (x :: a) i = 1 <;> simp [dimAt] at *
+    · intro ⟨hl, h⟩
+      have : s = x :: a := eq_of_dimAt s (x :: a) (by simpa using hl) (fun i hi => by
+        have := (h i hi).2
+        by_cases hx : dimAt (x :: a) i = 1
+        · simp only [hx, if_true] at this; simp [dimAt] at this ⊢; simp [dimAt] at hx; omega
+        · simpa [hx] using this)
+      rw [this]
+  | x :: a, y :: b, s => by
+    have ih := bcastRev_rel a b
+    simp only [bcastRev]
+    constructor
+    · intro h
+      by_cases hc : x = y ∨ x = 1 ∨ y = 1
+      · simp only [hc, if_true] at h
+        cases hr : bcastRev a b with
+        | none => simp [hr] at h
+        | some r =>
+          simp only [hr, Option.map_some, Option.some.injEq] at h
+          subst h
+          obtain ⟨hl, hr'⟩ := (ih r).mp hr
+          refine ⟨by simp [hl], fun i hi => ?_⟩
+          cases i with
+          | zero => simpa [dimAt] using hc
+          | succ j =>
+            have := hr' j (by simpa using hi)
+            simpa [dimAt] using this
+      · simp [hc] at h
+    · intro ⟨hl, h⟩
+      have h0 := h 0 (by rw [hl]; simp)
+      simp only [dimAt, List.getD_cons_zero] at h0
+      cases s with
+      | nil => simp at hl
+      | cons z r =>
+        simp only [List.getD_cons_zero] at h0
+        have hrel : BroadcastRel a b r := by
+          refine ⟨by simp at hl; omega, fun i hi => ?_⟩
+          have := h (i + 1) (by simpa using hi)
+          simpa [dimAt] using this
+        have hr := (ih r).mpr hrel
+        simp only [h0.1, if_true, hr, Option.map_some, Option.some.injEq, List.cons.injEq, and_true]
+        exact h0.2.symm
+
 end LinOp.C19
